@@ -37,6 +37,7 @@ from multiprocess import (
     Queue as _Queue,
 )
 import copy as _copy
+from queue import Empty as _queue_Empty
 import h5py as _h5py
 from matplotlib import pyplot as _plt
 import numpy as _numpy
@@ -1925,6 +1926,7 @@ class ParallelSampleSMP:
             sampler.main_thread_keyboard_interrupt = main_thread_keyboard_interrupt
 
         # Start parallel sampling
+        self.sampler_widget_data = []
         try:
 
             # These arguments need to be passed to all chains
@@ -1968,6 +1970,17 @@ class ParallelSampleSMP:
             for p in ps:
                 p.start()
 
+            # Collect the results while the chains are running. A chain process can
+            # only exit once its result has been read from the queue, so joining
+            # before reading deadlocks when there are many chains.
+            while len(self.sampler_widget_data) < number_of_chains and any(
+                p.is_alive() for p in ps
+            ):
+                try:
+                    self.sampler_widget_data.append(self.queue.get(timeout=0.05))
+                except _queue_Empty:
+                    pass
+
             for p in ps:
                 p.join()
 
@@ -1981,7 +1994,6 @@ class ParallelSampleSMP:
                 pipe_matrix.close()
             raise e
         finally:
-            self.sampler_widget_data = []
             while not self.queue.empty():
                 self.sampler_widget_data.append(self.queue.get())
             # Beat it into the correct format
